@@ -932,7 +932,7 @@ func decodeSsa(doc []byte) (*ssaDocGT, error) {
 // ---- suite ----------------------------------------------------------------------------------------
 
 func suiteSsa(R *runner, r *rng) {
-	R.rule("ssa: ground-truth documents (script info subsets, comments, 0..3 styles over the 23 attributes, 0..5 dialogue events with all columns, text of 1..5 lines and 1..4 runs with override blocks, commas and colons in text, empty lines incl. the first line(s) of an event, override blocks back to back (runs without text), blanks at run boundaries next to a block) x renderings (column permutations and subsets in both Format lines, section-name case, v4 / v4+ / 'V4 Styles+', H:MM:SS.cc vs HH:MM:SS.cc, decimal vs &H colours, TertiaryColour alias, *Default, \\N and \\n mixed inside one event, EOL kinds, BOM, junk lines, unknown sections, Comment events); reader vs ground truth on the observable columns; writer output decoded by the independent Format-driven decoder and by the reader; read-then-write byte-equal to the first write; non-trivial = at least one event")
+	R.rule("ssa: ground-truth documents (script info subsets, comments, 0..3 styles over the 23 attributes, 0..5 dialogue events with all columns, text of 1..5 lines and 1..4 runs with override blocks, commas and colons in text, empty lines incl. the first line(s) of an event, override blocks back to back (runs without text), blanks at run boundaries next to a block) x renderings (column permutations and subsets in both Format lines, section-name case, v4 / v4+ / 'V4 Styles+', H:MM:SS.cc vs HH:MM:SS.cc, decimal vs &H colours, TertiaryColour alias, *Default, \\N and \\n mixed inside one event, EOL kinds, BOM, junk lines, unknown sections, Comment events); reader vs ground truth on the observable columns, and what was read written, read and written again (second write byte-equal to the first); writer output decoded by the independent Format-driven decoder and by the reader; read-then-write byte-equal to the first write; non-trivial = at least one event")
 	N := 800
 	if R.tier == "thorough" {
 		N = 16000
@@ -955,6 +955,18 @@ func suiteSsa(R *runner, r *rng) {
 				o.Oracle, o.Sig = "reader: "+m, "ssa-read-value"
 				if strings.Contains(m, "attribute Bold") || strings.Contains(m, "attribute Italic") || strings.Contains(m, "attribute Strikeout") || strings.Contains(m, "attribute Underline") {
 					o.Sig = "ssa-read-boolean"
+				}
+			} else if len(s.Items) > 0 {
+				// C04_rewrite_rendered: write what was read from the rendering, read that, write again: the same bytes
+				R.count("ssa.rewrite_rendered")
+				var w1, w2 bytes.Buffer
+				if err := s.WriteToSSA(&w1); err != nil {
+					o.Oracle, o.Sig = "writing what was read from a rendered document failed: "+err.Error(), "ssa-rewrite-rendered"
+				} else if back, rerr := astisub.ReadFromSSA(bytes.NewReader(w1.Bytes())); rerr != nil {
+					o.Oracle, o.Sig = "the reader rejects what the writer made of a rendered document: "+rerr.Error(), "ssa-rewrite-rendered"
+				} else if err := back.WriteToSSA(&w2); err != nil || !bytes.Equal(w1.Bytes(), w2.Bytes()) {
+					o.Oracle, o.Sig = "rendered document: read, write, read, write again does not yield the bytes of the first write", "ssa-rewrite-rendered"
+					h["first_write"], h["second_write"] = w1.String(), w2.String()
 				}
 			}
 		}
